@@ -386,6 +386,7 @@ def spans(t, out=None, v="tight"):
                 out.append((kk, x + off, y + off, extra))
         out.append(("lop", 0, len(l), op))
         out.append(("rop", len(l) + len(op), len(l) + len(op) + len(r), op))
+        out.append(("op", len(l), len(l) + len(op), op))
     return l + op + r
 
 
@@ -405,6 +406,10 @@ def edits(t, inserts=True):
             yield ("del-left-operand", s[:a] + s[b:])
         elif k == "rop":
             yield ("del-right-operand", s[:a] + s[b:])
+        elif k == "op":
+            # two operands without an operator between them: (1)(2), 2sin(1), 2 (3) - not well-formed either
+            yield ("del-operator", s[:a] + s[b:])
+            yield ("del-operator", s[:a] + " " + s[b:])
         elif k == "arg1":
             yield ("del-arg", s[:a] + s[b:])
             yield ("add-arg", s[:b] + ",1" + s[b:])
